@@ -37,6 +37,7 @@ fn main() {
         "C15" => props::c15::run(&mut ctx),
         #[cfg(feature = "ffi")]
         "C19" => props::c19::run(&mut ctx),
+        "C16" => props::c16::run(&mut ctx),
         _ => { eprintln!("unknown property {prop}"); std::process::exit(2); }
     }
     ctx.finish(out);
